@@ -38,9 +38,9 @@ const modPath = "github.com/whawty/auth"
 
 var redirect = map[string]map[string]string{
 	// package dir -> import path -> simulator package
-	"store":           {"os": "simfs"},
-	"sasl":            {"net": "simnet"},
-	"cmd/whawty-auth": {"os": "simfs", "net": "simnet", "os/exec": "simexec", "os/signal": "simsignal"},
+	"store":           {"os": "simfs", "sync": "simsync"},
+	"sasl":            {"net": "simnet", "sync": "simsync"},
+	"cmd/whawty-auth": {"os": "simfs", "net": "simnet", "os/exec": "simexec", "os/signal": "simsignal", "sync": "simsync"},
 }
 
 type edit struct {
